@@ -54,13 +54,13 @@ CHECKS.update({
         "Phi is supplied as a table generated from erfc and cross-checked against two other implementations; p is checked to one grid cell (<= 4e-4 absolute).", "7/C10"),
     "C12": _c("tlc-concurrency", "TLC model check of the lazycompile wrapper (2-3 threads, invariants + liveness) and of a blocked-apply model; TLC trace validation of EVERY interleaving of two racing first calls of the real wrapper under a sys.monitoring scheduler; eager-vs-dask configuration matrix decided by TLC",
         "The wrapper's check-then-act race is a TLA+ machine with one action per critical point; TLC explores all interleavings for 2 and 3 threads (cell only ever holds a finished kernel, only kernels are called, every call returns F, termination under fairness). The real wrapper is driven through every interleaving of its bytecode-level critical points for two racing first calls (stateless DFS, deterministic scheduler built on sys.monitoring, no repo hook), a bounded DFS for 2+1 calls and a seeded sample for three threads; every execution is validated step by step by TLC. Real numba compiles are raced in fresh subprocesses. For 18 accessor operations the eager result is compared by TLC with dask runs over chunkings, schedulers, dimension orders, permuted pixels and a chunked time axis (refuse or equal); the prange kernel is run under every thread count.",
-        "Only Python-level yield points are scheduled deterministically; numba's lock, dask's schedulers and the prange runtime are exercised, not enumerated.", "7/C12"),
+        "Only Python-level yield points are scheduled deterministically; numba's lock, dask's schedulers and the prange runtime are exercised, not enumerated. Layout runs cover time first / last / middle and x stored before y for every operation (zonal.mean included); a lazy result must compute to the dtype it announces (AnnouncedDtype).", "7/C12"),
     "C15": _c("tlc-autocorr", "TLC exhaustive model check of spec/Autocorr.tla (running-sum formula = mean-filled Pearson) + TLC validation of every API/encoding/layout result against the exact rational correlation",
         "TLC checks on all series of length 3..6/7 over {missing,0,1,2,5} that the kernels' running-sum formula equals the mean-filled Pearson correlation (squared value and sign, exactly), lies in [-1,1] and is invariant under positive affine maps; a negative control shows the pinned numerator violates it. Real results of autocorr_1d (int/nodata and float/NaN), autocorr, autocorr_tyx and the accessor (both layouts, numpy and dask) are decided by TLC against the exact rational C, VarX, VarY: r^2 VarX VarY = C^2 within 1e-5, sign, zero rule, range.",
         "float32 tolerance 1e-5 on r^2; the unrounded float64 helper autocorr_1d is allowed 1e-9 above 1.", "7/C15"),
     "C16": _c("tlc-zonal", "TLC model check of spec/Zonal.tla (exact accumulation = contract, accumulator-width experiment) + TLC validation of do_mean / zonal.mean on run-length encoded rasters up to 2.5e7 pixels per zone",
         "TLC checks that exact accumulation equals the declarative per-zone mean and count, that rearranging pixels changes nothing, and -- with a parametric floating format -- that accumulating in the output format breaks the contract while a wide accumulator with one final rounding meets it. Real calls of do_mean and hdc.zonal.mean (float32/float64, numpy/dask) are recorded with the raster as a run-length encoded pixel stream; TLC computes the exact sum and count per (time, zone) from the runs and requires the mean within 4 ulp of the output dtype and the count exactly as the dtype can hold it, NaN/0 for empty zones.",
-        "Zones up to 1e6 pixels in quick, 2.5e7 in thorough.", "7/C16"),
+        "Zones up to 1e6 pixels in quick, 2.5e7 in thorough; nodata values at the edges of each data type, cubes stored time first / last / middle, zone rasters in (y, x) and (x, y) order.", "7/C16"),
 })
 
 CHECKS.update({
@@ -72,7 +72,7 @@ CHECKS.update({
         "Same trusted base as C07; saturation is asserted relative to the oracle's tail probability, not to a particular clamp value.", "7/C08"),
     "C09": _c("tlc-spi-accessor", "TLC exhaustive model check of spec/SpiAccessor.tla (searchsorted = inclusive window, validity tests = MustRaise, scatter/gather = per-group decomposition) + TLC validation of get_calibration_indices / hdc.algo.spi calls",
         "TLC checks on every sorted axis up to 5/6 steps, every begin/end and every labeling with up to 3 groups that the binary-search index pair delimits exactly {t : begin <= t <= end}, that the code's validity tests coincide with the contract's invalid windows, and that the grouped driver equals the per-group ungrouped index with an uninterpreted per-series function. Real calls are decided by TLC: ValueError iff the window is invalid (per group), recorded attributes, ungrouped output equal to the kernel output for the contract's index pair (neighbouring pairs are recorded, TLC selects), grouped output equal cell by cell to ungrouped calls on each group's sub-cube, invariance under respelling the labels ('10' < '2' strings, letters, floats), single group = ungrouped.",
-        "SPI values themselves are uninterpreted here (C07).", "7/C09"),
+        "SPI values themselves are uninterpreted here (C07); each candidate window is evaluated twice (as given, and with the window's steps moved to the front) and the two must agree (FitSampleIsTheWindowsSteps).", "7/C09"),
 })
 
 CHECKS.update({
@@ -96,7 +96,7 @@ CHECKS.update({
         "Differential by nature: the specification contributes the catalogue and the agreement semantics. Callee kernels inside a source stay compiled. Known finding C13-F2 (math.log(0) domain behaviour) is reported, not raised.", "7/C13", level="translation_validation"),
     "C14": _c("tlc-bounds", "TLC: index-safety invariants of the kernel machines and access-set models (spec/IndexModels.tla) over all boundary sizes; TLC validation of every kernel compiled with NUMBA_BOUNDSCHECK=1 and run twice on garbage-prefilled outputs",
         "Index safety is an invariant of the step machines (Ws2d!IndexOK / NoWrap incl. n = 2, 3; RollIndexOK; tinterpolate cursors; iteragg slices) and, for the other kernels, of access sets written as functions of the input sizes and checked for all sizes 0..7 under the documented contracts, with negative controls when a contract is dropped. On the compiled code a fresh subprocess builds all 35 kernels with numba's bounds checking and runs boundary-sized inputs (minimum lengths, single pixel / group / zone, window == length, all-missing, one valid) twice on output buffers pre-filled with different garbage; TLC requires no IndexError, no exception and identical results (every output element written).",
-        "Relies on numba's own bounds checking to report out-of-range indices; memory errors inside numba / LLVM / SciPy are outside this technique.", "7/C14"),
+        "Relies on numba's own bounds checking to report out-of-range indices; memory errors inside numba / LLVM / SciPy are outside this technique. The bounds-checked worker also calls every accessor operation in three stored layouts and zonal.mean with transposed zone rasters (eager and dask), and poisons the heap with different bytes before each of the two repeated calls.", "7/C14"),
 })
 
 NOT_YET = "check not built yet in this round (see DESIGN.md section 11 for the build order)"
